@@ -90,6 +90,18 @@ func init() {
 	add("cont+AF-only", false, nil, true)
 	add("PUSI+AF-only", true, nil, true)
 	add("cont+AF183+payload-flag(empty payload)", false, []byte{}, false)
+	// adaptation_field_control 00 (reserved): neither flag is set, so the packet carries no payload,
+	// whatever its 184 body bytes look like
+	for _, pusi := range []bool{false, true} {
+		h := ref.Header{Sync: 0x47, PUSI: pusi, PID: 0x64, CC: byte(len(c17Alphabet)), AFC: 1}
+		raw := ref.BuildPacket(h, nil, -1, fill(184, 0x40))
+		raw[3] &^= 0x30
+		name := "cont+afc00"
+		if pusi {
+			name = "PUSI+afc00"
+		}
+		c17Alphabet = append(c17Alphabet, c17Pkt{name, raw, nil, pusi})
+	}
 }
 
 type c17State struct {
@@ -344,8 +356,8 @@ func init() {
 		ID: "C17", Title: "Payload accumulator returns exactly the payloads since the last unit start", Level: "model_checking",
 		Scenarios: []engine.ScenarioRunner{
 			&engine.BFS[*c17State]{
-				Name: "histories",
-				Rule: "BFS over all histories of {WritePacket(p) for 10 packets (PUSI/continuation x 184-byte payloads A/B, 3-byte and 1-byte payloads behind adaptation-field stuffing, AF-only with and without PUSI, AF length 183 with payload flag), Reset} from a new accumulator, one run per completion predicate (never; done at >=1/184/185/368 bytes; error at >=184/368; done-then-error; error-after-done); after every call Bytes(), Packets(), the predicate's argument, the returned error class and input immutability are compared with a list model, returned slices are overwritten as aliasing probes, and after Reset the canonical state must equal a new accumulator's; canonical key = private state (hook) + bytes + packets + model flags; depth 6 (quick) / 8 (thorough)",
+				Name:  "histories",
+				Rule:  "BFS over all histories of {WritePacket(p) for 12 packets (PUSI/continuation x 184-byte payloads A/B, 3-byte and 1-byte payloads behind adaptation-field stuffing, AF-only with and without PUSI, AF length 183 with payload flag, adaptation_field_control 00 with and without PUSI), Reset} from a new accumulator, one run per completion predicate (never; done at >=1/184/185/368 bytes; error at >=184/368; done-then-error; error-after-done); after every call Bytes(), Packets(), the predicate's argument, the returned error class and input immutability are compared with a list model, returned slices are overwritten as aliasing probes, and after Reset the canonical state must equal a new accumulator's; canonical key = private state (hook) + bytes + packets + model flags; depth 6 (quick) / 8 (thorough)",
 				Inits: func(r *engine.Run) []int { return seq(0, len(c17Preds)-1) },
 				NOps:  func(r *engine.Run) int { return len(c17Alphabet) + 1 },
 				New:   c17New,
